@@ -160,7 +160,7 @@ def rt_case(r):
     else:
         parts.append("1%N")
     if r.get("load1") == "ok":
-        exact = (not r["eq"]) and (not r["reduced"])
+        exact = (not r["eq"]) and (not r["reduced"]) and (not r.get("live"))
         parts.append("chk_verdict %d%%N %d%%N %s %s %s" % (r["st0"], r["st1"], r["obj0"], r["obj1"], b(exact)))
     else:
         parts.append("1%N")
